@@ -17,7 +17,7 @@ THEOREMS = [
     "c14_translated", "c14_poll_interval_documented", "c14_deadline", "c14_timeout_at_deadline", "c14_cancel_latency", "c14_cancelled_only_if_fired",
     "c14_one_cancel_notification", "c14_cancel_before_send_writes_no_request", "c14_progress_exact",
     "c14_consumed_is_before_completion", "c14_progress_token_filter", "c14_callback_failure_irrelevant",
-    "c14_shared_token", "c14_shared_token_starts",
+    "c14_shared_token", "c14_shared_token_starts", "c14_blocked_writer",
 ]
 RULE = (
     "schedules: placements of {cancel, matching response, deadline} on the tick grid (1/1024 s) at poll boundaries +-1 tick, "
@@ -76,6 +76,10 @@ class Schedules(Suite):
                             if c is not None:
                                 case["cancelAt"] = c
                             out.append(G.place(case))
+                            if c is not None and k % 4 == 0:
+                                # the same schedule against a peer that closed its end / stopped reading
+                                for wm in ("closed", "blocked"):
+                                    out.append(G.place(dict(case, writer=wm, ev=[list(e) for e in ev])))
         # cancelled before sending / token present but never fired
         for tie in ("events", "timers", "io"):
             for ev in ([], [[0, G.sym_event("N")]], [[5, {"k": "resp", "id": "$ID", "p": {"x": 1}}]]):
@@ -136,6 +140,8 @@ class Schedules(Suite):
             tags.append("progress")
         if case.get("cbRaises"):
             tags.append("cbraise")
+        if case.get("writer"):
+            tags.append("w-" + case["writer"])
         n = len(case["ev"])
         tags.append("none" if n == 0 else "few" if n < 8 else "burst" if n < 40 else "flood")
         return "/".join(tags)
@@ -150,6 +156,8 @@ class Schedules(Suite):
         sent = o.get("sent_id")
         if o["outcome"] == "exception":
             return ("unexpected-exception", f"{o.get('exc')}: {o.get('text')}", None)
+        if o["outcome"] == "hung":
+            return ("deadline-exceeded", f"still running {t} ticks after its start, deadline {D}", {"t<=": D})
         if t > D:
             return ("deadline-exceeded", f"completed at tick {t} > deadline {D} ({o['outcome']})", {"t<=": D})
         if o["outcome"] == "timeout" and t != D:
@@ -160,14 +168,18 @@ class Schedules(Suite):
             reqs = [w for w in o["writes"] if isinstance(w, dict) and "id" in w and w.get("method")]
             if reqs or o["outcome"] != "cancelled":
                 return ("sent-after-cancel", f"token cancelled before the call: outcome {o['outcome']}, requests written {reqs}", {"outcome": "cancelled", "requests": 0})
+        wm = case.get("writer", "open")
         if c is not None:
-            if t > c + P:
+            # a peer that has stopped reading: the cancelled notification cannot be written; the
+            # deadline (checked above) is what still bounds the call -- outside the property's
+            # quantifier (inbound traffic), see DESIGN 9.8
+            if t > c + P and wm != "blocked":
                 return ("cancel-latency", f"token fired at {c}, call ended at {t} > {c}+{P} ({o['outcome']})", {"t<=": c + P})
             if o["outcome"] == "cancelled" and t < c:
                 return ("cancelled-early", f"CancelledError at {t} before the token fired at {c}", None)
         elif o["outcome"] == "cancelled" and not case.get("pre"):
             return ("cancelled-without-token", "CancelledError although no token fired", None)
-        want = 1 if o["outcome"] == "cancelled" else 0
+        want = 1 if o["outcome"] == "cancelled" and (wm != "closed" or case.get("pre")) else 0
         if len(cancels) != want:
             return ("cancel-notification-count", f"{len(cancels)} cancelled notifications written, outcome {o['outcome']}", {"count": want})
         if cancels and sent is not None and (cancels[0].get("params") or {}).get("requestId") != sent:
@@ -189,6 +201,13 @@ class Schedules(Suite):
             if [x for _, x in seq[:k] if x is not None] == o["cbs"]:
                 ok = True
                 break
+        if not ok and wm == "blocked" and c is not None and c < t:
+            # stuck in the write of the cancelled notification since the poll after `c`: what arrives
+            # while the call is stuck is not consumed (outside the quantifier, DESIGN 9.8); what
+            # arrived before the token fired must still have been delivered, in order
+            before = [x for a, x in seq if x is not None and a < c]
+            if o["cbs"][: len(before)] == before:
+                ok = True
         if not ok:
             exp = [x for _, x in seq[:lo] if x is not None]
             return ("progress-exact", f"callback calls {o['cbs']} differ from the matching progress notifications before completion", {"cbs": exp})
@@ -236,7 +255,7 @@ class SharedToken(Suite):
             reqs = []
             for j in range(n):
                 c = G.seeded(rng, ["R", "E", "N", "O", "G", "F", "Q"], max_len=5, progress_p=0.3)
-                for key in ("cancelAt", "pre", "hasToken", "cbRaises", "tie"):
+                for key in ("cancelAt", "pre", "hasToken", "cbRaises", "tie", "writer"):
                     c.pop(key, None)
                 reqs.append(c)
             out.append({"mode": rng.choice(["seq", "par"]), "tie": rng.choice(["events", "timers", "io"]),
@@ -273,6 +292,8 @@ class SharedToken(Suite):
         for i, (r, x) in enumerate(zip(case["reqs"], o)):
             if x["outcome"] == "exception":
                 return ("unexpected-exception", f"request {i}: {x.get('exc')}: {x.get('text')}", None)
+            if x["outcome"] == "hung":
+                return ("shared-token/deadline-exceeded", f"request {i} still running {x['t']} ticks after its start, deadline {r['D']}", None)
             cancels = [w for w in x["writes"] if isinstance(w, dict) and w.get("method") == "notifications/cancelled"]
             reqs = [w for w in x["writes"] if isinstance(w, dict) and "id" in w and w.get("method")]
             want = 1 if x["outcome"] == "cancelled" else 0
